@@ -22,6 +22,7 @@ fn run_case(x: &Sx) -> Sx {
         "sbcov" => maps::run_sbcov(&l[1..]),
         "alg" => algebra::run_alg(&l[1..]),
         "split" => algebra::run_split(&l[1..]),
+        "splithead" => algebra::run_splithead(&l[1..]),
         "merge" => algebra::run_merge(&l[1..]),
         "bg" => algebra::run_bg(&l[1..]),
         "fmt" => text::run_fmt(&l[1..]),
